@@ -177,9 +177,61 @@ def search():
     return n, None
 
 
+def decorated_twice():
+    """Each `retry(...)` application is a configuration of its own: the same function wrapped twice (different limits, caught
+    sets, delays) gives two wrappers that each obey their own configuration - sync and async."""
+    class Caught(Exception):
+        pass
+    pauses = []
+    saved = (R.sleep, R.sleep_sync)
+
+    async def fake_sleep(d):
+        pauses.append(d)
+    R.sleep, R.sleep_sync = fake_sleep, lambda d: pauses.append(d)
+    try:
+        for is_async in (False, True):
+            calls = []
+            if is_async:
+                async def flaky(n):
+                    calls.append(n)
+                    if len(calls) <= n:
+                        raise Caught(len(calls))
+                    return ("ok", len(calls))
+            else:
+                def flaky(n):
+                    calls.append(n)
+                    if len(calls) <= n:
+                        raise Caught(len(calls))
+                    return ("ok", len(calls))
+            first = retry(limit=1, catching=KeyError)(flaky)
+            second = retry(limit=3, delay=0.25, catching=(Caught,))(flaky)
+            for label, wrapper, fails, want_calls, want in (("limit=3, delay=0.25, catching=(Caught,)", second, 3, 4, ("ok", 4)),
+                                                            ("limit=1, catching=KeyError", first, 1, 1, "Caught")):
+                del calls[:]
+                del pauses[:]
+                try:
+                    r = wrapper(fails)
+                    if is_async:
+                        r = asyncio.run(r)
+                    got = r
+                except Caught:
+                    got = "Caught"
+                if got != want or len(calls) != want_calls or (want != "Caught" and pauses != [0.25] * (want_calls - 1)):
+                    return (f"{'async' if is_async else 'sync'} function wrapped twice; the wrapper made with retry({label}) on a function "
+                            f"failing {fails} times: outcome {got!r} after {len(calls)} calls with pauses {pauses}; expected {want!r} "
+                            f"after {want_calls} calls")
+    finally:
+        R.sleep, R.sleep_sync = saved
+    return None
+
+
 def main():
     record = json.loads(sys.stdin.read() or "{}")
     n, fail = search()
+    if not fail:
+        n += 1
+        p = decorated_twice()
+        fail = dict(problem=p) if p else None
     if fail:
         print(json.dumps(dict(reproduced=True, detail=fail, cases_tried=n)))
     else:
